@@ -158,6 +158,30 @@ static int build_node(char **tok, int ntok, int *pos, struct json_object **out)
 	return -1;
 }
 
+/* ---------- progress watchdog ----------
+ * A driver command normally takes micro- to milliseconds.  If the progress counter does not move for two consecutive
+ * ticks (2 x VF_WATCHDOG_TICK seconds, default 15 s each) the library call in flight does not return: say so and exit
+ * with status 124, so that a hang is attributed to its case within seconds instead of after the shard's long timeout. */
+#include <signal.h>
+#include <sys/time.h>
+static volatile unsigned long vf_progress;
+static unsigned long vf_wd_last; static int vf_wd_stalls;
+static void vf_wd_tick(int sig)
+{
+	(void)sig;
+	if (vf_progress == vf_wd_last) {
+		if (++vf_wd_stalls >= 2) { static const char m[] = "VF-WATCHDOG: no progress, the call in flight does not return\n"; if (write(2, m, sizeof m - 1)) {} _exit(124); }
+	} else { vf_wd_last = vf_progress; vf_wd_stalls = 0; }
+}
+static void vf_watchdog_init(void)
+{
+	struct itimerval it; const char *e = getenv("VF_WATCHDOG_TICK"); int tick = e ? atoi(e) : 15;
+	if (tick <= 0) return;
+	signal(SIGALRM, vf_wd_tick);
+	it.it_interval.tv_sec = tick; it.it_interval.tv_usec = 0; it.it_value = it.it_interval;
+	setitimer(ITIMER_REAL, &it, NULL);
+}
+
 /* split a line in place into tokens */
 static int split_tokens(char *line, char ***tokv, int *cap)
 {
